@@ -351,6 +351,22 @@ Fixpoint rreplay (p : proj) (ck : bool) (cfg : config) (tmo : Z) (cands : list r
 Definition rreplay_history (p : proj) (ck : bool) (cfg : config) (tmo : Z) (h : list (revent * list rout)) :=
   rreplay p ck cfg tmo [rinit cfg] h 0.
 
+(** the same for a history on ONE server that mixes REST exchanges and gRPC calls (C15_mixed) *)
+Fixpoint mreplay (p : proj) (ck : bool) (cfg : config) (tmo : Z) (cands : list rstate) (h : list (mevent * list rout)) (i : nat)
+  : option (nat * list (list rout)) :=
+  match h with
+  | [] => None
+  | (ev, obs) :: h' =>
+      let nexts := flat_map (λ st, mstep cfg tmo st ev) cands in
+      match List.filter (λ '(_, o), routs_eqb p ck o obs) nexts with
+      | [] => Some (i, map snd nexts)
+      | ok => mreplay p ck cfg tmo (map fst ok) h' (S i)
+      end
+  end.
+
+Definition mreplay_history (p : proj) (ck : bool) (cfg : config) (tmo : Z) (h : list (mevent * list rout)) :=
+  mreplay p ck cfg tmo [rinit cfg] h 0.
+
 (** does this history contain an advance at which the model does not enumerate the tie orders? (evaluated along
     the model's own first run; the harness skips the model comparison of such histories) *)
 Fixpoint rhas_tie (cfg : config) (tmo : Z) (st : rstate) (h : list revent) : bool :=
